@@ -150,3 +150,52 @@ pub proof fn lemma_in_avail_step(cs: Seq<Energy>, n: int, c: Carrier)
     if !(cs[n] is Out) && e_carrier(cs[n]) == c { assert(a[n] == cs[n]); }
 }
 pub open spec fn view_cset(s: HashSet<Carrier>) -> Set<Carrier> { s@ }
+
+// ---- update_wfactor (C07): the first factor with the key gets new values in place, all other factors stay
+/// w1 is w0 with the values of element i replaced (key fields of every element unchanged)
+pub open spec fn upd_at(w0: Seq<Factor>, w1: Seq<Factor>, i: int, v: RenNrenCo2) -> bool {
+    &&& w1.len() == w0.len() && 0 <= i < w0.len()
+    &&& fvals(w1[i]) == v && w1[i].carrier == w0[i].carrier && w1[i].source == w0[i].source && w1[i].dest == w0[i].dest && w1[i].step == w0[i].step
+    &&& forall|j: int| 0 <= j < w0.len() && j != i ==> #[trigger] w1[j] == w0[j]
+}
+pub proof fn lemma_find_same_keys(w0: Seq<Factor>, w1: Seq<Factor>, i: int, v: RenNrenCo2, c: Carrier, s: Source, d: Dest, st: Step)
+    requires upd_at(w0, w1, i, v),
+    ensures find_spec(w1, c, s, d, st) == (if find_spec(w0, c, s, d, st) is Some && fkey(w0[i], c, s, d, st) && (forall|j: int| 0 <= j < i ==> !fkey(#[trigger] w0[j], c, s, d, st)) { Some(v) } else { find_spec(w0, c, s, d, st) }),
+    decreases w0.len(),
+{
+    if w0.len() > 0 {
+        if i == 0 {
+            if fkey(w0[0], c, s, d, st) { assert(fkey(w1[0], c, s, d, st)); }
+            else {
+                assert(!fkey(w1[0], c, s, d, st));
+                assert(w1.drop_first() =~= w0.drop_first()) by { assert forall|j: int| 0 <= j < w0.len() - 1 implies w1.drop_first()[j] == w0.drop_first()[j] by { assert(w1[j + 1] == w0[j + 1]); } }
+            }
+        } else {
+            assert(w1[0] == w0[0]);
+            if !fkey(w0[0], c, s, d, st) {
+                let a0 = w0.drop_first();
+                let a1 = w1.drop_first();
+                assert(upd_at(a0, a1, i - 1, v)) by {
+                    assert(a1[i - 1] == w1[i] && a0[i - 1] == w0[i]);
+                    assert forall|j: int| 0 <= j < a0.len() && j != i - 1 implies #[trigger] a1[j] == a0[j] by { assert(w1[j + 1] == w0[j + 1]); }
+                }
+                lemma_find_same_keys(a0, a1, i - 1, v, c, s, d, st);
+                assert((forall|j: int| 0 <= j < i ==> !fkey(#[trigger] w0[j], c, s, d, st)) == (forall|j: int| 0 <= j < i - 1 ==> !fkey(#[trigger] a0[j], c, s, d, st))) by {
+                    if forall|j: int| 0 <= j < i ==> !fkey(#[trigger] w0[j], c, s, d, st) { assert forall|j: int| 0 <= j < i - 1 implies !fkey(#[trigger] a0[j], c, s, d, st) by { assert(a0[j] == w0[j + 1]); } }
+                    if forall|j: int| 0 <= j < i - 1 ==> !fkey(#[trigger] a0[j], c, s, d, st) { assert forall|j: int| 0 <= j < i implies !fkey(#[trigger] w0[j], c, s, d, st) by { if j > 0 { assert(a0[j - 1] == w0[j]); } } }
+                }
+                assert(fkey(a0[i - 1], c, s, d, st) == fkey(w0[i], c, s, d, st));
+            } else {
+                // the first element matches: nothing before i ... the match at 0 wins in both
+                assert(!(forall|j: int| 0 <= j < i ==> !fkey(#[trigger] w0[j], c, s, d, st))) by { assert(fkey(w0[0], c, s, d, st)); }
+            }
+        }
+    }
+}
+pub proof fn lemma_upd_carriers(w0: Seq<Factor>, w1: Seq<Factor>, i: int, v: RenNrenCo2, c: Carrier)
+    requires upd_at(w0, w1, i, v),
+    ensures carrier_in(w1, c) == carrier_in(w0, c),
+{
+    if carrier_in(w0, c) { let j = choose|j: int| 0 <= j < w0.len() && (#[trigger] w0[j]).carrier == c; assert(w1[j].carrier == c) by { if j != i { assert(w1[j] == w0[j]); } } }
+    if carrier_in(w1, c) { let j = choose|j: int| 0 <= j < w1.len() && (#[trigger] w1[j]).carrier == c; assert(w0[j].carrier == c) by { if j != i { assert(w1[j] == w0[j]); } } }
+}
